@@ -41,8 +41,8 @@ the harness uses it to decide whether a line was consumed by the request it belo
 Simplifications (stated, not hidden):
   * `read` without -r strips leading/trailing blanks and removes backslashes; payloads the harness
     sends contain neither, so only the stripping is modelled.
-  * __ebd_read_size counts bytes (harness payloads are ASCII; the chars-vs-bytes question is a
-    different property).
+  * __ebd_read_size counts bytes: the daemon is spawned without LANG/LC_* (C locale), so `read -N`
+    counts bytes; checked by the conformance run with non-ASCII payloads.
   * whether an env chunk evaluates successfully / an eclass passes `bash -n` is decided by
     predicates given by the harness (`env_ok`, `eclass_ok`), not by interpreting bash.
   * die output text is abstract ("<die text i>"); only its framing (dying ... dead) matters.
